@@ -11,6 +11,10 @@
 //!                                   real deserializer / reader / tape parser on its canonical rendering <hex>
 //!   x-derive <which> <enc> <hex>    real derived structs against TySeed on the same input
 //!   x-probe <kind> <enc> <ty> <hex> known divergences, observed and counted
+//!   x-rare <which> <enc> <hex> <expect>   REAL Rust target types on the rarely used serde entry points (narrow ints, char,
+//!                    &str / Cow, bytes / byte_buf, unit, newtype / tuple structs, arrays, 128-bit ints, enums with
+//!                    content, IgnoredAny, Property) through EVERY constructor; oracle: all constructors give the same
+//!                    Debug string or all refuse with the same class, and the expected Debug string / error class
 //! enc = w1252 | utf8.  <tape> = show::text_tape of the REAL tape of <hex>; <rtokens> = the REAL
 //! TokenReader::from_slice tokens of <hex> (show::text_lex_tok, plus a final `Err` when the lexer failed).
 //! <expect> = value computed from the abstract document by `value_of` (independent reference), `-` = none.
@@ -194,20 +198,24 @@ fn value_of_leaf(enc: Enc, ty: &Ty, l: &Leaf) -> Option<String> {
     let ty_err = Some("err:type".to_string());
     match ty {
         Ty::Bool => Some(if text == b"yes" { "b1".into() } else if text == b"no" { "b0".into() } else { return ty_err }),
-        Ty::I64 | Ty::I32 => {
+        Ty::I64 | Ty::I32 | Ty::I16 | Ty::I8 => {
             let foreign = text.iter().any(|b| !b.is_ascii_digit() && *b != b'+' && *b != b'-');
             let (neg, m) = match ref_int(&text) { Some(x) => x, None => return if foreign { ty_err } else { None } };
             if m > i64::MAX as u128 && !(neg && m == 1u128 << 63) { return ty_err; }
             let v = if neg { (-(m as i128)) as i64 } else { m as i64 };
             if *ty == Ty::I32 && i32::try_from(v).is_err() { return ty_err; }
+            if *ty == Ty::I16 && i16::try_from(v).is_err() { return ty_err; }
+            if *ty == Ty::I8 && i8::try_from(v).is_err() { return ty_err; }
             Some(format!("i{}", v))
         }
-        Ty::U64 | Ty::U32 => {
+        Ty::U64 | Ty::U32 | Ty::U16 | Ty::U8 => {
             let foreign = text.iter().any(|b| !b.is_ascii_digit() && *b != b'+' && *b != b'-');
             let (neg, m) = match ref_int(&text) { Some(x) => x, None => return if foreign { ty_err } else { None } };
             if neg { return ty_err; }
             if m > u64::MAX as u128 { return ty_err; }
             if *ty == Ty::U32 && m > u32::MAX as u128 { return ty_err; }
+            if *ty == Ty::U16 && m > u16::MAX as u128 { return ty_err; }
+            if *ty == Ty::U8 && m > u8::MAX as u128 { return ty_err; }
             Some(format!("u{}", m))
         }
         Ty::F64 | Ty::F32 => {
@@ -298,7 +306,7 @@ fn value_of_node(enc: Enc, ty: &Ty, n: &Node, op: Option<Op>) -> Option<String> 
         }
         _ => {}
     }
-    let typed_leaf = matches!(ty, Ty::Bool | Ty::I64 | Ty::U64 | Ty::I32 | Ty::U32 | Ty::F64 | Ty::F32 | Ty::Str);
+    let typed_leaf = matches!(ty, Ty::Bool | Ty::I64 | Ty::U64 | Ty::I32 | Ty::U32 | Ty::I16 | Ty::U16 | Ty::I8 | Ty::U8 | Ty::F64 | Ty::F32 | Ty::Str);
     let ty_err = Some("err:type".to_string());
     match n {
         // a map / struct requested for a scalar: both paths refuse with the same class (Lean `Fits.mapOnLeaf` / `stOnLeaf`)
@@ -384,7 +392,7 @@ fn bad(enc: Enc, field_pos: bool, ty: &Ty, n: &Node) -> bool {
     let is_hdr = matches!(n, Node::Header(..) | Node::Rgb(..));
     let empty = matches!(n, Node::Arr(v) if v.is_empty()) || matches!(n, Node::Obj(f) if f.is_empty());
     match ty {
-        Ty::Bool | Ty::I64 | Ty::U64 | Ty::I32 | Ty::U32 | Ty::F64 | Ty::F32 | Ty::Str | Ty::Ign => false,
+        Ty::Bool | Ty::I64 | Ty::U64 | Ty::I32 | Ty::U32 | Ty::I16 | Ty::U16 | Ty::I8 | Ty::U8 | Ty::F64 | Ty::F32 | Ty::Str | Ty::Ign => false,
         Ty::Any => match n {
             Node::Leaf(_) => false,
             Node::Arr(vs) => !any_oks(vs),
@@ -415,7 +423,7 @@ fn bad(enc: Enc, field_pos: bool, ty: &Ty, n: &Node) -> bool {
             _ => true,
         },
         // outside the Lean models' type grammar
-        Ty::U16 | Ty::I16 | Ty::U8 | Ty::I8 | Ty::Tuple(_) | Ty::Unit => true,
+        Ty::Tuple(_) | Ty::Unit => true,
     }
 }
 
@@ -458,8 +466,10 @@ const VARIANT_POOL: [&str; 6] = ["alpha", "beta", "core", "name", "x", "zz"];
 fn ident(b: &[u8]) -> bool { !b.is_empty() && b.len() <= 12 && b.iter().all(|c| c.is_ascii_alphanumeric() || *c == b'_') }
 
 fn gen_leaf_ty(rng: &mut Rng, l: &Leaf) -> Ty {
-    if rng.chance(1, 40) { return rng.pick(&[Ty::Bool, Ty::I64, Ty::U64, Ty::F64, Ty::Str]).clone(); }
+    if rng.chance(1, 40) { return rng.pick(&[Ty::Bool, Ty::I64, Ty::U64, Ty::F64, Ty::Str, Ty::I16, Ty::U8]).clone(); }
     match l {
+        // the narrow integer targets (serde's range-checked conversions after deserialize_i64 / _u64): in and out of range
+        Leaf::Int(_) | Leaf::Uint(_) if rng.chance(1, 5) => rng.pick(&[Ty::I16, Ty::U16, Ty::I8, Ty::U8]).clone(),
         Leaf::Int(i) => match rng.below(8) { 0 => Ty::F64, 1 => Ty::Any, 2 => Ty::Str, 3 => Ty::I32, 4 if *i >= 0 || rng.chance(1, 4) => Ty::U64, 5 => Ty::F32, 6 => Ty::U32, _ => Ty::I64 },
         Leaf::Uint(u) => match rng.below(7) { 0 => Ty::Any, 1 => Ty::Str, 2 => Ty::U32, 3 => Ty::I64, 4 if *u < (1 << 53) => Ty::F64, 5 => Ty::I32, _ => Ty::U64 },
         Leaf::Bool(_) => match rng.below(5) { 0 => Ty::Any, 1 => Ty::Str, _ => Ty::Bool },
@@ -555,7 +565,7 @@ fn gen_node_ty(rng: &mut Rng, n: &Node, cfg: &TyCfg) -> Ty {
 
 /// a deliberately ill-fitting type somewhere (robustness of the correspondence; no expectation)
 fn misfit(rng: &mut Rng, t: &Ty) -> Ty {
-    let pool = [Ty::Bool, Ty::I64, Ty::U64, Ty::F64, Ty::Str, Ty::Any, Ty::Ign, Ty::Seq(Box::new(Ty::Any)), Ty::Map(Box::new(Ty::Any)),
+    let pool = [Ty::Bool, Ty::I64, Ty::U64, Ty::F64, Ty::Str, Ty::I8, Ty::U16, Ty::Any, Ty::Ign, Ty::Seq(Box::new(Ty::Any)), Ty::Map(Box::new(Ty::Any)),
                 Ty::Seq(Box::new(Ty::Str)), Ty::Map(Box::new(Ty::Str)), Ty::Enum(vec!["a".into(), "b".into()]), Ty::Prop(Box::new(Ty::Any)),
                 Ty::Struct(vec![("a".into(), Ty::Any), ("b".into(), Ty::Opt(Box::new(Ty::Any)))]), Ty::Opt(Box::new(Ty::Seq(Box::new(Ty::Ign)))),
                 Ty::Struct(vec![("remainder".into(), Ty::Seq(Box::new(Ty::Any)))]), Ty::Seq(Box::new(Ty::Prop(Box::new(Ty::Str))))];
@@ -754,6 +764,373 @@ fn exec_wide(w: &[&str], obs: &mut Obs) -> Option<String> {
 
 /// implementation-only: tape path == reader path (every capacity / read size) for target types outside the
 /// Lean models' `Ty` grammar (unit, fixed-length tuples): `x-paths <enc> <ty> <hex>`
+// ---------------------------------------------------------------------------------------
+// x-rare: REAL Rust target types on the rarely used serde entry points, through every constructor
+
+mod rare {
+    use jomini::text::Property;
+    use serde::de::{self, Deserializer, IgnoredAny, Visitor};
+    use serde::Deserialize;
+    use std::borrow::Cow;
+    use std::fmt;
+
+    struct BytesVisitor;
+    impl<'de> Visitor<'de> for BytesVisitor {
+        type Value = Vec<u8>;
+        fn expecting(&self, f: &mut fmt::Formatter) -> fmt::Result { f.write_str("bytes") }
+        fn visit_bytes<E: de::Error>(self, v: &[u8]) -> Result<Vec<u8>, E> { Ok(v.to_vec()) }
+        fn visit_borrowed_bytes<E: de::Error>(self, v: &'de [u8]) -> Result<Vec<u8>, E> { Ok(v.to_vec()) }
+        fn visit_byte_buf<E: de::Error>(self, v: Vec<u8>) -> Result<Vec<u8>, E> { Ok(v) }
+    }
+    /// hand-written: `deserialize_byte_buf`
+    #[derive(Debug, PartialEq, Clone)]
+    pub struct ByteBuf(pub Vec<u8>);
+    impl<'de> Deserialize<'de> for ByteBuf {
+        fn deserialize<D: Deserializer<'de>>(d: D) -> Result<Self, D::Error> { d.deserialize_byte_buf(BytesVisitor).map(ByteBuf) }
+    }
+    /// hand-written: `deserialize_bytes`
+    #[derive(Debug, PartialEq, Clone)]
+    pub struct BytesV(pub Vec<u8>);
+    impl<'de> Deserialize<'de> for BytesV {
+        fn deserialize<D: Deserializer<'de>>(d: D) -> Result<Self, D::Error> { d.deserialize_bytes(BytesVisitor).map(BytesV) }
+    }
+
+    #[derive(Deserialize, Debug, PartialEq, Clone)]
+    pub struct UnitS;
+    #[derive(Deserialize, Debug, PartialEq, Clone)]
+    pub struct Newt(pub i32);
+    #[derive(Deserialize, Debug, PartialEq, Clone)]
+    pub struct Pair(pub i32, pub String);
+    #[derive(Deserialize, Debug, PartialEq, Clone)]
+    #[serde(rename_all = "lowercase")]
+    pub enum Shape { Dot, Circle(u16), Rect(i32, i32), Poly { n: u8, name: String } }
+
+    /// every constructor (`DeserializeOwned`)
+    #[derive(Deserialize, Debug, PartialEq, Default)]
+    pub struct Owned {
+        pub a: Option<i8>, pub b: Option<i16>, pub c: Option<u8>, pub d: Option<u16>,
+        pub ch: Option<char>, pub bb: Option<ByteBuf>, pub bv: Option<BytesV>,
+        pub us: Option<UnitS>, pub un: Option<()>, pub nt: Option<Newt>, pub pr: Option<Pair>,
+        pub arr: Option<[i32; 2]>, pub big: Option<i128>, pub ubig: Option<u128>, pub f: Option<f32>,
+        pub sh: Option<Shape>, pub ig: Option<IgnoredAny>, pub pp: Option<Property<i16>>,
+        pub id: u8,
+    }
+
+    /// borrowing targets: the tape-backed constructors only (the reader constructors demand `DeserializeOwned`)
+    #[derive(Deserialize, Debug, PartialEq, Default)]
+    pub struct Borrowed<'a> {
+        #[serde(borrow)] pub s: Option<&'a str>,
+        #[serde(borrow)] pub cow: Option<Cow<'a, str>>,
+        #[serde(borrow)] pub by: Option<&'a [u8]>,
+        pub ch: Option<char>,
+        pub id: u8,
+    }
+
+    /// enum variants with content, written as `{ variant content }`: the tape path reads them, the reader path
+    /// answers "unsupported enum deserialization" by design (Lean `Bad.enArr`)
+    #[derive(Deserialize, Debug, PartialEq, Default)]
+    pub struct Enums { pub e1: Option<Shape>, pub e2: Option<Shape>, pub e3: Option<Shape>, pub id: u8 }
+}
+
+fn rare_cls<T: std::fmt::Debug>(r: Result<T, jomini::Error>) -> String {
+    match r { Ok(v) => format!("{:?}", v), Err(e) => err_class(&e.to_string()) }
+}
+
+/// every tape-backed constructor (None: the input does not parse to a tape)
+fn rare_tape_family<'a, T: serde::Deserialize<'a> + std::fmt::Debug>(enc: Enc, data: &'a [u8], tape: &'a TextTape<'a>) -> Vec<(&'static str, String)> {
+    use jomini::{Utf8Encoding, Windows1252Encoding};
+    let mut out = vec![];
+    match enc {
+        Enc::W => {
+            out.push(("fn from_windows1252_slice", rare_cls(jomini::text::de::from_windows1252_slice::<T>(data))));
+            out.push(("TextDeserializer::from_windows1252_slice", rare_cls(TextDeserializer::from_windows1252_slice(data).and_then(|de| de.deserialize::<T>()))));
+            out.push(("TextDeserializer::from_windows1252_tape", rare_cls(TextDeserializer::from_windows1252_tape(tape).deserialize::<T>())));
+            out.push(("TextDeserializer::from_encoded_tape", rare_cls(TextDeserializer::from_encoded_tape(tape, Windows1252Encoding::new()).deserialize::<T>())));
+            let rd = tape.windows1252_reader();
+            out.push(("ObjectReader::deserialize", rare_cls(rd.deserialize::<T>())));
+        }
+        Enc::U => {
+            out.push(("fn from_utf8_slice", rare_cls(jomini::text::de::from_utf8_slice::<T>(data))));
+            out.push(("TextDeserializer::from_utf8_slice", rare_cls(TextDeserializer::from_utf8_slice(data).and_then(|de| de.deserialize::<T>()))));
+            out.push(("TextDeserializer::from_utf8_tape", rare_cls(TextDeserializer::from_utf8_tape(tape).deserialize::<T>())));
+            out.push(("TextDeserializer::from_encoded_tape", rare_cls(TextDeserializer::from_encoded_tape(tape, Utf8Encoding::new()).deserialize::<T>())));
+            let rd = tape.utf8_reader();
+            out.push(("ObjectReader::deserialize", rare_cls(rd.deserialize::<T>())));
+        }
+    }
+    out
+}
+
+/// `TextDeserializer::from_reader(&ObjectReader)`: the reader has to outlive the deserializer AND carry the data lifetime
+fn rare_from_object_reader<T: serde::de::DeserializeOwned + std::fmt::Debug>(enc: Enc, tape: &TextTape) -> String {
+    match enc {
+        Enc::W => { let rd = tape.windows1252_reader(); let de = TextDeserializer::from_reader(&rd); rare_cls(de.deserialize::<T>()) }
+        Enc::U => { let rd = tape.utf8_reader(); let de = TextDeserializer::from_reader(&rd); rare_cls(de.deserialize::<T>()) }
+    }
+}
+
+/// every streaming constructor, two buffer sizes, whole / byte-by-byte delivery
+fn rare_reader_family<T: serde::de::DeserializeOwned + std::fmt::Debug>(enc: Enc, data: &[u8]) -> Vec<(&'static str, String)> {
+    let mut out = vec![];
+    match enc {
+        Enc::W => {
+            out.push(("fn from_windows1252_reader", rare_cls(jomini::text::de::from_windows1252_reader::<T, _>(data))));
+            out.push(("from_windows1252_reader(from_slice)", rare_cls(TextDeserializer::from_windows1252_reader(TokenReader::from_slice(data)).deserialize::<T>())));
+            out.push(("from_windows1252_reader(buffer 96, 1 byte per read)", rare_cls(TextDeserializer::from_windows1252_reader(TokenReader::builder().buffer_len(96).build(sched::SchedReader::new(data, vec![sched::Step::Repeat(1)]))).deserialize::<T>())));
+            out.push(("from_windows1252_reader(buffer 4096)", rare_cls(TextDeserializer::from_windows1252_reader(TokenReader::builder().buffer_len(4096).build(data)).deserialize::<T>())));
+        }
+        Enc::U => {
+            out.push(("fn from_utf8_reader", rare_cls(jomini::text::de::from_utf8_reader::<T, _>(data))));
+            out.push(("from_utf8_reader(from_slice)", rare_cls(TextDeserializer::from_utf8_reader(TokenReader::from_slice(data)).deserialize::<T>())));
+            out.push(("from_utf8_reader(buffer 96, 1 byte per read)", rare_cls(TextDeserializer::from_utf8_reader(TokenReader::builder().buffer_len(96).build(sched::SchedReader::new(data, vec![sched::Step::Repeat(1)]))).deserialize::<T>())));
+            out.push(("from_utf8_reader(buffer 4096)", rare_cls(TextDeserializer::from_utf8_reader(TokenReader::builder().buffer_len(4096).build(data)).deserialize::<T>())));
+        }
+    }
+    out
+}
+
+/// all results equal? (None) or the first differing pair
+fn rare_first_difference(rs: &[(&'static str, String)]) -> Option<String> {
+    let (n0, r0) = rs.first()?;
+    rs.iter().find(|(_, r)| r != r0).map(|(n, r)| format!("{}: {} | {}: {}", n0, r0, n, r))
+}
+
+/// `x-rare <which> <enc> <hex> <expect>`; expect = `-` | hex of the expected Debug string | `err:<class>`
+fn exec_rare(w: &[&str], obs: &mut Obs) -> Option<String> {
+    let ["x-rare", which, enc, h, expect] = w else { return None };
+    let enc = Enc::parse(enc)?;
+    let data = unhex(h)?;
+    let case = w.join(" ");
+    if *which == "unparsable" {
+        // input the tape parser refuses: the slice constructors return the parse error, the streaming ones refuse too
+        let slices = match enc {
+            Enc::W => vec![rare_cls(jomini::text::de::from_windows1252_slice::<rare::Owned>(&data)), rare_cls(TextDeserializer::from_windows1252_slice(&data).and_then(|de| de.deserialize::<rare::Owned>()))],
+            Enc::U => vec![rare_cls(jomini::text::de::from_utf8_slice::<rare::Owned>(&data)), rare_cls(TextDeserializer::from_utf8_slice(&data).and_then(|de| de.deserialize::<rare::Owned>()))],
+        };
+        let readers = rare_reader_family::<rare::Owned>(enc, &data);
+        if TextTape::from_slice(&data).is_ok() { obs.violation("bad-case", &case, "input parses"); }
+        if slices.iter().any(|r| !is_err(r)) { obs.violation("rare-value", &case, &format!("a slice constructor accepted unparsable input: {:?}", slices)); }
+        if let Some(d) = rare_first_difference(&readers) { obs.violation("constructors-disagree", &case, &format!("streaming constructors: {}", d)); }
+        obs.count(&format!("rare:unparsable:reader-{}", if is_err(&readers[0].1) { "err" } else { "ok" }));
+        return Some(format!("{} | {}", slices[0], readers[0].1));
+    }
+    let tape = match TextTape::from_slice(&data) { Ok(t) => t, Err(_) => { obs.violation("bad-case", &case, "input does not parse to a tape"); return Some("bad-case".into()); } };
+    let expect: Option<String> = if *expect == "-" { None } else if expect.starts_with("err") { Some(expect.to_string()) } else { Some(String::from_utf8(unhex(expect)?).ok()?) };
+    let (tapes, readers): (Vec<(&'static str, String)>, Vec<(&'static str, String)>) = match *which {
+        "owned" => {
+            let mut t = rare_tape_family::<rare::Owned>(enc, &data, &tape);
+            t.push(("TextDeserializer::from_reader(&ObjectReader)", rare_from_object_reader::<rare::Owned>(enc, &tape)));
+            (t, rare_reader_family::<rare::Owned>(enc, &data))
+        }
+        "borrowed" => (rare_tape_family::<rare::Borrowed>(enc, &data, &tape), vec![]),
+        // probes (relation of the two families counted, agreement inside each family required):
+        // a fixed-length array / tuple target on a LONGER array; a sequence requested for a map KEY
+        "long" => {
+            let mut t = rare_tape_family::<rare::Owned>(enc, &data, &tape);
+            t.push(("TextDeserializer::from_reader(&ObjectReader)", rare_from_object_reader::<rare::Owned>(enc, &tape)));
+            (t, rare_reader_family::<rare::Owned>(enc, &data))
+        }
+        "keyseq" => {
+            type K = std::collections::BTreeMap<Vec<String>, i32>;
+            let mut t = rare_tape_family::<K>(enc, &data, &tape);
+            t.push(("TextDeserializer::from_reader(&ObjectReader)", rare_from_object_reader::<K>(enc, &tape)));
+            (t, rare_reader_family::<K>(enc, &data))
+        }
+        "enums" => {
+            let mut t = rare_tape_family::<rare::Enums>(enc, &data, &tape);
+            t.push(("TextDeserializer::from_reader(&ObjectReader)", rare_from_object_reader::<rare::Enums>(enc, &tape)));
+            (t, rare_reader_family::<rare::Enums>(enc, &data))
+        }
+        _ => return None,
+    };
+    if let Some(d) = rare_first_difference(&tapes) { obs.violation("constructors-disagree", &case, &format!("tape-backed constructors: {}", d)); }
+    if let Some(d) = rare_first_difference(&readers) { obs.violation("constructors-disagree", &case, &format!("streaming constructors: {}", d)); }
+    let t0 = tapes[0].1.clone();
+    let r0 = readers.first().map(|r| r.1.clone());
+    if *which == "enums" || *which == "long" || *which == "keyseq" {
+        // enums: content-carrying variants, by design only the tape path reads them; the relation is counted
+        if let Some(r0) = &r0 { obs.count(&format!("rare:{}:tape-{}:reader-{}", which, if is_err(&t0) { "err" } else { "ok" }, if is_err(r0) { "err" } else { "ok" })); }
+    } else if let Some(r0) = &r0 {
+        if *r0 != t0 { obs.violation("constructors-disagree", &case, &format!("tape-backed {} streaming {}", t0, r0)); }
+    }
+    if let Some(e) = &expect {
+        if t0 != *e { obs.violation("rare-value", &case, &format!("got {} expected {}", t0, e)); }
+        obs.count(&format!("rare:{}:expected-{}", which, if is_err(e) { e.as_str() } else { "value" }));
+    }
+    // Property: Debug / PartialEq / Clone / accessors agree with each other
+    if *which == "owned" {
+        if let Ok(v) = match enc { Enc::W => jomini::text::de::from_windows1252_slice::<rare::Owned>(&data), Enc::U => jomini::text::de::from_utf8_slice::<rare::Owned>(&data) } {
+            if let Some(p) = v.pp {
+                let q = p.clone();
+                let rebuilt = jomini::text::Property::new(q.operator(), *q.value());
+                if !(p == q && rebuilt == p && format!("{:?}", p) == format!("{:?}", rebuilt) && p.into_value() == q.into_value()) { obs.violation("rare-value", &case, "Property clone / eq / new / into_value"); }
+                obs.count("rare:property-checked");
+            }
+        }
+    }
+    obs.count(&format!("rare:{}:{}", which, if is_err(&t0) { "err" } else { "ok" }));
+    Some(match r0 { Some(r) if r != t0 => format!("{} | {}", t0, r), _ => t0 })
+}
+
+/// text of a string in the given encoding (the characters used by `gen_rare` exist in both)
+fn rare_encode(enc: Enc, s: &str) -> Vec<u8> {
+    match enc {
+        Enc::U => s.as_bytes().to_vec(),
+        Enc::W => s.chars().map(|c| match c { '\u{e9}' => 0xe9, '\u{df}' => 0xdf, '\u{20ac}' => 0x80, '\u{153}' => 0x9c, c => c as u8 }).collect(),
+    }
+}
+
+/// documents for the real target types of `mod rare`: field values that FIT the types (expected value known
+/// without the crate), and one scalar-level misfit per document in a quarter of the cases (expected error class)
+pub fn gen_rare(g: &mut Gen) {
+    use jomini::text::{Operator, Property};
+    // probes: `[i32; 2]` / a 2-tuple struct on a longer array (the tape path stops after two elements, the reader
+    // path demands the closing brace); a sequence requested for a map key
+    for (which, txt) in [("long", "id=1 arr={ 1 2 3 }"), ("long", "arr={ 1 2 3 4 } id=2"), ("long", "id=3 pr={ 5 abc def }"), ("long", "id=4 arr={ 1 2 { 3 } }"),
+                         ("keyseq", "a=1"), ("keyseq", "a=1 b=2"),
+                         ("unparsable", "id=1 arr={ 1 2"), ("unparsable", "id=1 pr={ 5 abc"), ("unparsable", "id=1 ch=\"x")] {
+        for enc in [Enc::W, Enc::U] { g.emit(format!("x-rare {} {} {} -", which, enc.name(), hex(txt.as_bytes()))); }
+    }
+    const EXTRA: [char; 4] = ['\u{e9}', '\u{df}', '\u{20ac}', '\u{153}'];
+    let n = g.budget(4_000, 40_000);
+    for i in 0..n {
+        let enc = if i % 2 == 0 { Enc::W } else { Enc::U };
+        let rng = &mut g.rng;
+        let word = |rng: &mut Rng, extra: bool| -> String { (0..rng.range(1, 6)).map(|_| if extra && rng.chance(1, 6) { *rng.pick(&EXTRA) } else { (b'a' + rng.below(26) as u8) as char }).collect() };
+        let quote = |rng: &mut Rng, b: Vec<u8>| -> Vec<u8> { if rng.chance(1, 3) { let mut q = vec![b'"']; q.extend(b); q.push(b'"'); q } else { b } };
+        let edge = |rng: &mut Rng, lo: i128, hi: i128| -> i128 { match rng.below(6) { 0 => lo, 1 => hi, 2 => 0, _ => lo + (rng.below(1 << 30) as i128 * 7919) % (hi - lo + 1) } };
+        let mut parts: Vec<Vec<u8>> = vec![];
+        let mut err: Option<String> = None;
+        let kv = |k: &str, v: Vec<u8>| -> Vec<u8> { let mut o = k.as_bytes().to_vec(); o.push(b'='); o.extend(v); o };
+        let junk = |rng: &mut Rng| -> Vec<u8> { rng.pick(&[&b"yes"[..], b"{ 1 2 }", b"{ a=1 b={ c=2 } }", b"\"q q\"", b"{}", b"rgb { 1 2 3 }"]).to_vec() };
+        let which = match i % 5 { 3 => "borrowed", 4 => "enums", _ => "owned" };
+        let misfit = rng.chance(1, 4);
+        let expect: String = match which {
+            "owned" => {
+                let mut e = rare::Owned::default();
+                let mut order: Vec<usize> = (0..18).collect();
+                for k in (1..order.len()).rev() { let j = rng.below(k + 1); order.swap(k, j); }
+                let bad_field = if misfit { Some(*rng.pick(&[0usize, 1, 2, 3, 4, 5, 6, 9, 10, 11, 15])) } else { None };
+                for f in order {
+                    let bad = bad_field == Some(f);
+                    if !bad && rng.chance(1, 3) { continue; }
+                    if err.is_some() { continue; }   // nothing after the misfit is read; keep the document short
+                    let int_field = |rng: &mut Rng, lo: i128, hi: i128, bad: bool| -> (i128, Vec<u8>) {
+                        if bad { let v = match rng.below(3) { 0 => hi + 1 + rng.below(1000) as i128, 1 => lo - 1 - rng.below(1000) as i128, _ => hi + 1 }; (v, v.to_string().into_bytes()) }
+                        else { let v = edge(rng, lo, hi); (v, v.to_string().into_bytes()) }
+                    };
+                    match f {
+                        0 => { let (v, t) = int_field(rng, -128, 127, bad); parts.push(kv("a", t)); if bad { err = Some("err:type".into()) } else { e.a = Some(v as i8) } }
+                        1 => { let (v, t) = int_field(rng, -32768, 32767, bad); parts.push(kv("b", t)); if bad { err = Some("err:type".into()) } else { e.b = Some(v as i16) } }
+                        2 => { let (v, t) = int_field(rng, 0, 255, bad); parts.push(kv("c", t)); if bad { err = Some("err:type".into()) } else { e.c = Some(v as u8) } }
+                        3 => { let (v, t) = int_field(rng, 0, 65535, bad); parts.push(kv("d", t)); if bad { err = Some("err:type".into()) } else { e.d = Some(v as u16) } }
+                        4 => {
+                            if bad && rng.chance(1, 4) { parts.push(kv("ch", b"{ a }".to_vec())); err = Some("err:type".into()); }
+                            else if bad { let t = if rng.chance(1, 3) { b"\"\"".to_vec() } else { let w = word(rng, true) + "z"; quote(rng, rare_encode(enc, &w)) }; parts.push(kv("ch", t)); err = Some("err:type".into()); }
+                            else { let c = if rng.chance(1, 3) { *rng.pick(&EXTRA) } else { *rng.pick(&['x', 'Z', '7', '_', '-']) }; let t = quote(rng, rare_encode(enc, &c.to_string())); parts.push(kv("ch", t)); e.ch = Some(c); }
+                        }
+                        5 | 6 => {
+                            let k = if f == 5 { "bb" } else { "bv" };
+                            if bad { parts.push(kv(k, b"{ 1 2 }".to_vec())); err = Some("err:type".into()); }
+                            else {
+                                // raw bytes of the scalar, undecoded (any byte that may stand in an unquoted scalar)
+                                let raw: Vec<u8> = (0..rng.range(1, 6)).map(|_| if rng.chance(1, 5) { *rng.pick(&[0xe9u8, 0x80, 0xff, 0xc3]) } else { b'a' + rng.below(26) as u8 }).collect();
+                                parts.push(kv(k, quote(rng, raw.clone())));
+                                if f == 5 { e.bb = Some(rare::ByteBuf(raw)) } else { e.bv = Some(rare::BytesV(raw)) }
+                            }
+                        }
+                        7 => { parts.push(kv("us", junk(rng))); e.us = Some(rare::UnitS); }
+                        8 => { parts.push(kv("un", junk(rng))); e.un = Some(()); }
+                        9 => {
+                            if bad { parts.push(kv("nt", word(rng, false).into_bytes())); err = Some("err:type".into()); }
+                            else { let v = edge(rng, i32::MIN as i128, i32::MAX as i128); parts.push(kv("nt", v.to_string().into_bytes())); e.nt = Some(rare::Newt(v as i32)); }
+                        }
+                        10 => {
+                            let v = edge(rng, -1000, 1000); let w = word(rng, false);
+                            if bad { parts.push(kv("pr", format!("{{ {} }}", v).into_bytes())); err = Some("err:other".into()); }
+                            else { parts.push(kv("pr", format!("{{ {} {} }}", v, w).into_bytes())); e.pr = Some(rare::Pair(v as i32, w)); }
+                        }
+                        11 => {
+                            let (x, y) = (edge(rng, -1000, 1000), edge(rng, -1000, 1000));
+                            if bad { parts.push(kv("arr", format!("{{ {} }}", x).into_bytes())); err = Some("err:other".into()); }
+                            else { parts.push(kv("arr", format!("{{ {} {} }}", x, y).into_bytes())); e.arr = Some([x as i32, y as i32]); }
+                        }
+                        12 => { let v = edge(rng, i64::MIN as i128, i64::MAX as i128); parts.push(kv("big", v.to_string().into_bytes())); e.big = Some(v); }
+                        13 => { let v = edge(rng, 0, u64::MAX as i128); parts.push(kv("ubig", v.to_string().into_bytes())); e.ubig = Some(v as u128); }
+                        14 => {
+                            let t = format!("{}{}.{}", if rng.chance(1, 3) { "-" } else { "" }, rng.below(1000), rng.pick(&["0", "125", "25", "375", "5", "625", "75", "875"]));
+                            e.f = Some(t.parse::<f32>().unwrap()); parts.push(kv("f", t.into_bytes()));
+                        }
+                        15 => {
+                            // a content-carrying or unknown variant written as a scalar: both paths must refuse
+                            if bad { parts.push(kv("sh", rng.pick(&[&b"circle"[..], b"rect", b"poly", b"nosuch", b"\"circle\""]).to_vec())); err = Some("err:other".into()); }
+                            else { parts.push(kv("sh", quote(rng, b"dot".to_vec()))); e.sh = Some(rare::Shape::Dot); }
+                        }
+                        16 => { parts.push(kv("ig", junk(rng))); e.ig = Some(serde::de::IgnoredAny); }
+                        _ => {
+                            let v = edge(rng, -32768, 32767);
+                            let (sym, op) = *rng.pick(&[("=", Operator::Equal), ("<", Operator::LessThan), ("<=", Operator::LessThanEqual), (">", Operator::GreaterThan), (">=", Operator::GreaterThanEqual), ("!=", Operator::NotEqual), ("==", Operator::Exact), ("?=", Operator::Exists)]);
+                            parts.push(format!("pp {} {}", sym, v).into_bytes()); e.pp = Some(Property::new(op, v as i16));
+                        }
+                    }
+                }
+                let pos = rng.below(parts.len() + 1);
+                if err.is_none() && rng.chance(1, 20) { err = Some("err:missing:id".into()); }
+                else if err.is_some() { let id = rng.below(256); parts.insert(0.max(pos.min(parts.len().saturating_sub(1))), format!("id={}", id).into_bytes()); e.id = id as u8; }
+                else { let id = rng.below(256); parts.insert(pos, format!("id={}", id).into_bytes()); e.id = id as u8; }
+                format!("{:?}", e)
+            }
+            "borrowed" => {
+                let mut e_s: Option<String> = None; let mut e_cow: Option<String> = None; let mut e_by: Option<Vec<u8>> = None; let mut e_ch = None;
+                if rng.chance(2, 3) {
+                    // `&str` borrows from the input: possible when decoding leaves the bytes alone (ASCII; valid UTF-8 under utf8)
+                    let w = word(rng, misfit);
+                    let t = quote(rng, rare_encode(enc, &w)); parts.push(kv("s", t));
+                    if !w.is_ascii() && enc == Enc::W { err = Some("err:type".into()); } else { e_s = Some(w); }
+                }
+                if err.is_none() && rng.chance(2, 3) { let w = word(rng, true); let t = quote(rng, rare_encode(enc, &w)); parts.push(kv("cow", t)); e_cow = Some(w); }
+                if err.is_none() && rng.chance(2, 3) { let raw: Vec<u8> = (0..rng.range(1, 6)).map(|_| if rng.chance(1, 5) { *rng.pick(&[0xe9u8, 0x80, 0xff]) } else { b'a' + rng.below(26) as u8 }).collect(); parts.push(kv("by", quote(rng, raw.clone()))); e_by = Some(raw); }
+                if err.is_none() && rng.chance(1, 2) { let c = *rng.pick(&['x', '7', '\u{e9}', '\u{20ac}']); parts.push(kv("ch", rare_encode(enc, &c.to_string()))); e_ch = Some(c); }
+                let id = rng.below(256);
+                let pos = if err.is_some() { 0 } else { rng.below(parts.len() + 1) };
+                parts.insert(pos, format!("id={}", id).into_bytes());
+                let e = rare::Borrowed { s: e_s.as_deref(), cow: e_cow.as_deref().map(std::borrow::Cow::Borrowed), by: e_by.as_deref(), ch: e_ch, id: id as u8 };
+                format!("{:?}", e)
+            }
+            _ => {
+                let mut e = rare::Enums::default();
+                let mut slots = [None, None, None];
+                for (k, slot) in slots.iter_mut().enumerate() {
+                    if rng.chance(1, 3) || err.is_some() { continue; }
+                    let key = ["e1", "e2", "e3"][k];
+                    let bad = misfit && rng.chance(1, 2);
+                    let (t, v): (String, Option<rare::Shape>) = match rng.below(5) {
+                        0 => ("dot".into(), Some(rare::Shape::Dot)),
+                        1 => { let r = rng.below(65536); if bad { ("{ circle }".into(), None) } else { (format!("{{ circle {} }}", r), Some(rare::Shape::Circle(r as u16))) } }
+                        2 => { let (a, b) = (rng.below(100) as i32 - 50, rng.below(100) as i32); if bad { (format!("{{ rect {} {} }}", a, b), None) } else { (format!("{{ rect {{ {} {} }} }}", a, b), Some(rare::Shape::Rect(a, b))) } }
+                        3 => { let (nn, w) = (rng.below(256), word(rng, false)); if bad { (format!("{{ poly {{ n={} }} }}", nn), None) } else { (format!("{{ poly {{ n={} name={} }} }}", nn, w), Some(rare::Shape::Poly { n: nn as u8, name: w })) } }
+                        _ => if bad { ("{ dot }".into(), None) } else { ("{ dot x }".into(), Some(rare::Shape::Dot)) },
+                    };
+                    parts.push(kv(key, t.into_bytes()));
+                    match v { Some(v) => *slot = Some(v), None => err = Some("err".into()) }
+                }
+                let [a, b, c] = slots; e.e1 = a; e.e2 = b; e.e3 = c;
+                let id = rng.below(256); e.id = id as u8;
+                let pos = if err.is_some() { 0 } else { rng.below(parts.len() + 1) };
+                parts.insert(pos, format!("id={}", id).into_bytes());
+                format!("{:?}", e)
+            }
+        };
+        let sep: &[u8] = if rng.chance(1, 3) { b"\n" } else { b" " };
+        let mut data = parts.join(sep);
+        if rng.chance(1, 4) { data.push(b'\n'); }
+        // enums: the class of a refusal is not predicted (several `Unsupported` / serde messages), only that it is one
+        let e = match &err { Some(c) if c == "err" => "-".to_string(), Some(c) => c.clone(), None => hex(expect.as_bytes()) };
+        g.count(&format!("rare-gen:{}:{}", which, if err.is_some() { "misfit" } else { "fits" }));
+        g.emit(format!("x-rare {} {} {} {}", which, enc.name(), hex(&data), e));
+    }
+}
+
 fn exec_paths(w: &[&str], obs: &mut Obs) -> Option<String> {
     if let ["x-paths", enc, ty, h] = w {
         use serde::de::DeserializeSeed;
@@ -830,6 +1207,7 @@ pub fn gen_wide(g: &mut Gen) {
 pub fn exec(w: &[&str], obs: &mut Obs) -> Option<String> {
     if let Some(r) = exec_wide(w, obs) { return Some(r); }
     if let Some(r) = exec_paths(w, obs) { return Some(r); }
+    if let Some(r) = exec_rare(w, obs) { return Some(r); }
     let case = || w.join(" ");
     match w {
         ["tde_tape", enc, ty, tape, h, expect] => {
@@ -1000,6 +1378,7 @@ fn emit_pair_with(g: &mut Gen, enc: Enc, ty: &Ty, data: &[u8], expect: Option<&s
 
 pub fn gen(g: &mut Gen) {
     gen_wide(g);
+    gen_rare(g);
     // 0. fixed witnesses of repaired findings (also kept in corpus/C02.txt): `==` after a key on the
     //    streaming path (layout- and chunk-dependent before 42b6207), operators on a first field (F9)
     for (ty, text, expect) in [
@@ -1049,6 +1428,22 @@ pub fn gen(g: &mut Gen) {
             let expect = if claimed { Some("=".to_string()) } else { expect };
             emit_pair(g, enc, &ty, &data, expect.as_deref());
             let expect = if claimed { None } else { expect };
+            emit_spec(g, enc, &ty, &doc, expect.as_deref());
+        }
+    }
+    // 1a. narrow integer targets at the edges of their ranges (serde's range-checked conversions after
+    //     deserialize_i64 / deserialize_u64; Lean `leafConv`): every edge value x every narrow type
+    for v in [-32769i64, -32768, -129, -128, -1, 0, 127, 128, 255, 256, 32767, 32768, 65535, 65536] {
+        for t in [Ty::I8, Ty::U8, Ty::I16, Ty::U16] {
+            let fld = |k: &str, v: Vec<u8>| Field { key: Leaf::Unq(k.as_bytes().to_vec()), op: Op::Eq, val: Node::Leaf(Leaf::Unq(v)), ghosts: 0, implicit_eq: false };
+            let txt = if v > 0 && g.rng.chance(1, 4) { format!("+{}", v) } else { v.to_string() };
+            let doc = Doc { fields: vec![fld("x", txt.clone().into_bytes()), fld("y", txt.into_bytes())] };
+            let ty = Ty::Struct(vec![("x".into(), t.clone()), ("y".into(), Ty::Opt(Box::new(Ty::Prop(Box::new(t.clone())))))]);
+            let data = render_layout(&mut g.rng, &LayoutCfg::reader_safe(), &lexemes(&doc));
+            let enc = if v % 2 == 0 { Enc::W } else { Enc::U };
+            let expect = value_of(enc, &ty, &doc);
+            g.count(match &expect { Some(e) if is_err(e) => "narrow-int-edge:refused", Some(_) => "narrow-int-edge:accepted", None => "narrow-int-edge:no-expectation" });
+            emit_pair(g, enc, &ty, &data, expect.as_deref());
             emit_spec(g, enc, &ty, &doc, expect.as_deref());
         }
     }
